@@ -40,6 +40,15 @@ CLAIMED = {
         technique="symbolic execution of both twins + z3 equivalence queries per path pair (rewriter / rational normal "
                   "form / NRA); counterexamples replayed on the compiled kernels and on the real pipeflow",
         design="4/C07"),
+    "C06": dict(
+        text="Two-run equivalence by bounded model checking of the real code: the base description and a relabelled / "
+             "row-permuted / differently created description are both executed symbolically from the same arbitrary state "
+             "(symbols named by element identity through the relabelling); z3 proves entry-wise equality of the assembled "
+             "Newton systems and of every extracted result cell for all parameter values. Labellings are enumerated from a "
+             "pool (non-contiguous, unsorted, both sides of the 1e5 grouping switch).",
+        technique="symbolic execution of both descriptions + z3 equivalence queries (rewriter / rational normal form / NRA); "
+                  "counterexamples replayed on the real pipeflow",
+        design="4/C06"),
     "C14": dict(
         text="CrossHair executes the real init_options / _iteration_check / _mode_check / set_user_pf_options symbolically "
              "(z3) on dict layers built from symbolic presence flags and values; for each key cluster the documented "
